@@ -34,6 +34,7 @@ from vgi_rpc.metadata import (
     REQUEST_VERSION_KEY,
     RPC_METHOD_KEY,
     SERVER_ID_KEY,
+    SHM_OFFSET_KEY,
     SHM_SEGMENT_NAME_KEY,
     SHM_SEGMENT_SIZE_KEY,
     TRACEPARENT_KEY,
@@ -942,17 +943,32 @@ def _validate_result(method_name: str, value: object, result_type: object) -> No
         raise TypeError(f"{method_name}() expected a non-None return value but got None")
 
 
-def _drain_stream(reader: ValidatedReader) -> None:
-    """Consume remaining batches so the IPC EOS marker is read."""
+def _drain_stream(reader: ValidatedReader, *, shm: ShmSegment | None = None) -> None:
+    """Consume remaining batches so the IPC EOS marker is read.
+
+    With *shm*, a skipped batch that is a shared-memory pointer has its
+    region freed: a drained batch is never resolved, so no release function
+    exists for it and the region its sender allocated would otherwise stay
+    live for the rest of the segment's life.
+    """
     while True:
         try:
-            reader.read_next_batch()
+            if shm is None:
+                reader.read_next_batch()
+                continue
+            batch, custom_metadata = reader.read_next_batch_with_custom_metadata()
         except StopIteration:
             return
         except IPCError:
             # Content validation of a batch that is being thrown away: the
             # batch has been consumed, carry on to the EOS marker.
             continue
+        if is_shm_pointer_batch(batch, custom_metadata):
+            assert custom_metadata is not None  # guaranteed by is_shm_pointer_batch
+            offset_bytes = custom_metadata.get(SHM_OFFSET_KEY)
+            if offset_bytes is not None:
+                with contextlib.suppress(ValueError):
+                    shm.free(int(offset_bytes))
 
 
 def _write_stream_header(
